@@ -15,7 +15,8 @@ structure Opts where
   multi : Nat                 -- 0: no multi-select, n: limit
   cycle : Bool
   layout : Layout
-  maxItems : Nat              -- item rows of the list window
+  maxItems : Nat              -- item rows of the list window (while the input section is shown)
+  inputRows : Nat := 0        -- rows of the input section inside the list window: the list gains them while it is hidden
   total : Nat                 -- number of items loaded
   scrollOff : Nat := 3
   track : Bool := false       -- --track
@@ -38,6 +39,7 @@ structure TS where
   printQueue : List Str := []
   outcome : Option Outcome := none
   excluded : List Nat := []     -- items removed from the results by `exclude`
+  inputless : Bool := false     -- the input section is hidden (--no-input / hide-input)
 deriving Repr
 
 inductive Action where
@@ -51,9 +53,13 @@ inductive Action where
   | select | deselect | toggle | toggleUp | toggleDown | toggleIn | toggleOut
   | selectAll | deselectAll | toggleAll | clearSelection
   | toggleSort | exclude | excludeMulti
+  | toggleInput | showInput | hideInput
   | accept | acceptNonEmpty | acceptOrPrintQuery | abort | printQuery
   | print (s : Str)
 deriving Repr, DecidableEq
+
+/-- `Terminal.maxItems()`: the rows of the list; hiding the input section gives its rows to the list. -/
+def rowsOf (op : Opts) (s : TS) : Nat := if s.inputless then op.maxItems + op.inputRows else op.maxItems
 
 def constrainInt (v lo hi : Int) : Int := if v < lo then lo else if v > hi then hi else v
 
@@ -117,7 +123,7 @@ def rubout (w : Nat → Bool) (s : TS) : TS :=
   { s with yanked := (s.input.take s.cx).drop ncx, input := s.input.take ncx ++ s.input.drop s.cx, cx := ncx }
 
 def pageMove (op : Opts) (s : TS) (up half : Bool) : TS :=
-  let lines : Int := if half then (op.maxItems / 2 : Nat) else (op.maxItems : Int) - 1
+  let lines : Int := if half then (rowsOf op s / 2 : Nat) else (rowsOf op s : Int) - 1
   let lines := max 1 lines
   let dir : Int := if up then 1 else -1
   let dir := if op.layout != .default then -dir else dir
@@ -127,7 +133,7 @@ def pageMove (op : Opts) (s : TS) (up half : Bool) : TS :=
     scroll-off margin. -/
 def constrain (op : Opts) (s : TS) : TS :=
   let count : Int := s.results.length
-  let maxLines : Int := op.maxItems
+  let maxLines : Int := rowsOf op s
   let cy := constrainInt s.cy 0 (max 0 (count - 1))
   let offset0 := constrainInt s.offset 0 count
   let step (offset : Int) : Int :=
@@ -159,14 +165,14 @@ def constrain (op : Opts) (s : TS) : TS :=
             let o' := min maxOffset (o + 1)
             if o' = o then o else phase1 o' fuel
           else o
-      phase1 (phase0 offset (op.maxItems + 1)) (op.maxItems + 1)
+      phase1 (phase0 offset (rowsOf op s + 1)) (rowsOf op s + 1)
     else offset
   let rec iter (offset : Int) (fuel : Nat) : Int :=
     match fuel with
     | 0 => offset
     | fuel + 1 => let o' := step offset; if o' = offset then offset else iter o' fuel
   -- the Go loop runs at most maxLines times and compares with the offset before the iteration
-  { s with cy := cy, offset := if op.maxItems = 0 then offset0 else iter offset0 op.maxItems }
+  { s with cy := cy, offset := if rowsOf op s = 0 then offset0 else iter offset0 (rowsOf op s) }
 
 def maxPatternLength : Nat := 1000
 
@@ -245,6 +251,9 @@ def act (op : Opts) (s : TS) : Action → TS
     else match currentItem s with
       | some i => { s with excluded := i :: s.excluded }
       | none => s
+  | .toggleInput => { s with inputless := !s.inputless }
+  | .showInput => { s with inputless := false }
+  | .hideInput => { s with inputless := true }
   | .accept => { s with outcome := some .accept }
   | .acceptNonEmpty =>
     if s.selected.length > 0 ∨ s.results.length > 0 ∨ op.total = 0 then { s with outcome := some .accept } else s
@@ -260,14 +269,20 @@ def toggleMove (op : Opts) (s : TS) (d : Int) : TS :=
     (if (toggleCurrent op s).2 then vmove op (toggleCurrent op s).1 d else s)
   else s
 
+/-- The epilogue of `doAction`: while the input section is hidden, whatever the action did to the
+    query is discarded (the query is what it was before the action, the cursor at its end);
+    everything else the action did — kill buffer included — stays. -/
+def hideEdits (before s : TS) : TS :=
+  if s.inputless then { s with input := before.input, cx := before.input.length } else s
+
 def actStep (op : Opts) (s : TS) (a : Action) : TS :=
   if s.outcome.isSome then s else
-  match a with
+  hideEdits s (match a with
   | .toggleDown => toggleMove op s (-1)
   | .toggleUp => toggleMove op s 1
   | .toggleIn => toggleMove op s (if op.layout != .default then 1 else -1)
   | .toggleOut => toggleMove op s (if op.layout != .default then -1 else 1)
-  | a => act op s a
+  | a => act op s a)
 
 /-- `Terminal.UpdateList`: the new result list arrives. With `--track` the cursor follows the item
     it was on (looked up by item number in the new list) and keeps its distance to the top of the
@@ -285,7 +300,7 @@ def updateList (op : Opts) (s : TS) (new : List Nat) : TS :=
       match new.findIdx? (· == i) with
       | some k => { s with results := new, cy := (k : Int), offset := (k : Int) - pos }
       | none =>
-        if s.cy > count then { s with results := new, cy := count - min count (op.maxItems : Int) + pos }
+        if s.cy > count then { s with results := new, cy := count - min count (rowsOf op s : Int) + pos }
         else { s with results := new }
   else { s with results := new }
 
